@@ -1241,3 +1241,8 @@ def check(run):
     run.rule('R5', r5_content_length, 'forced Content-Length equals the bytes sent on non-streamed, body-bearing paths', floor=13)
     run.rule('R6', r6_close, 'response streams are closed exactly once on every exit', floor=7)
     run.rule('R7', r7_sse_and_status, 'SSE event framing; status-line shape', floor=9)
+    # media is the last-precedence body source: what is sent for it is the cached rendition, which must belong to
+    # the media currently assigned (shared with C12 R4)
+    from . import c12 as _c12
+
+    run.rule('R8', _c12.r4_render_cache, 'the rendered-media cache is reset by every writer of the media (shared with C12 R4)', floor=4)
